@@ -25,7 +25,7 @@ THEOREMS = [
     "decode_value", "reply_decodes", "decode_presentation_independent", "promote_preserves_infoset_partial",
     "chars_chunking", "builtin_tags_match_statement",
     "promote_capture_refuted", "nil_first_refuted", "whitespace_childless_refuted", "unprefixed_qname_refuted",
-    "nil_spelled_1_refuted",
+    "empty_complex_refuted", "empty_leaf_refuted",
 ]
 
 PRE = "From SV Require Import Lib.Base Fam.Schema Gen.C02Tables C02.Model C02.Spec C02.Guard."
@@ -34,26 +34,23 @@ ENV11 = F.SOAPENV
 ENV12 = "http://www.w3.org/2003/05/soap-envelope"
 XMLNS = "http://www.w3.org/XML/1998/namespace"
 
-# finding classes (keys of KNOWN_FINDINGS.json) per flag computed in Coq
+# finding classes per flag computed in Coq (coq/C02/Spec.v: flags_node, case_flags_all).  Flags 1..6 are
+# the departures the model keeps (quirks of the unchanged code); 8 is the signature of the repaired
+# defect C02:xsi-nil-spelled-1 coming back.  Every contradiction of the property goes through
+# ck.failing_input(key, ...): the framework prints KNOWN-FINDING for keys listed as known and
+# VIOLATION for all others.
 FLAG_KEYS = {
     1: "C02:nil-first-in-repeating-member",
     2: "C02:whitespace-in-childless-element",
     3: "C02:prefix-rebinding-capture",
     4: "C02:unprefixed-qname-default-namespace",
-}
-# debatable classes: never reported unless the maintainer lists the key as known
-DEBATABLE_KEYS = {
     5: "C02:empty-complex-element-as-empty-string",
     6: "C02:empty-nillable-leaf-as-none",
-    7: "C02:wrapper-attribute-counted-as-output",
 }
-# new findings proposed to the maintainer of KNOWN_FINDINGS.json: reported (as KNOWN-FINDING) once listed
-# there; until then they are counted in the evidence and do not fail the run
-PROPOSED_KEYS = {
+REGRESSION_KEYS = {
     8: "C02:xsi-nil-spelled-1",
 }
-DEBATABLE_KEYS.update(PROPOSED_KEYS)
-FLAGS = [1, 2, 3, 4, 5, 6, 7, 8]
+FLAGS = [1, 2, 3, 4, 5, 6, 8]
 
 
 def _tables():
@@ -96,7 +93,7 @@ class XE(object):
 
 ABSENT = object()
 
-SPICY = ["a<b", "x&y", "1 > 0", "]]>", "q\"uo'te", " lead", "trail ", "two  spaces", "tab\there", "line\nbreak",
+SPICY = ["first line\nsecond line", "a& &b", "left right", "x &\t& y", "one\n\ntwo", "a<b", "x&y", "1 > 0", "]]>", "q\"uo'te", " lead", "trail ", "two  spaces", "tab\there", "line\nbreak",
          "cr\rhere", "&amp;", "<![CDATA[x]]>", "é中\U0001F600", "<!-- no comment -->", "a]]b", "&#65;"]
 
 
@@ -139,7 +136,7 @@ class Plan(object):
         ns = self.ns_of(e)
         if v is None:
             self.features.add("xsi:nil")
-            x = XE(ns, e.name, [(F.XSI, "nil", self.rng.choice(["true", "true", "true", "true", "1"]))],
+            x = XE(ns, e.name, [(F.XSI, "nil", self.rng.choice(["true", "1"]))],
                    text=None if e.tref[0] == "n" else "")
             x.nil = True
             return x, "PNone"
@@ -231,9 +228,11 @@ class Plan(object):
             if "_" + a.name in fields:
                 attrs.append((None, a.name, fields["_" + a.name][2]))
         w = XE(S.namespaces[0][0], wrapper_name, attrs, kids=nodes)
+        # attributes declared by the wrapper's type are data too: they count as outputs, so such a
+        # wrapper always yields the composite object (of its element members)
         if len(members) == 0:
             expected = "PNone"
-        elif len(members) == 1:
+        elif len(members) == 1 and not S.all_attrs(t):
             m = members[0]
             if exp:
                 expected = exp[0][1]
@@ -265,8 +264,13 @@ class Writer(object):
     elements and inside tags, empty-element tags, an optional Header."""
 
     def __init__(self, rng, shadow=False, unprefixed_qname=False, ws_in_childless=False, plain=False,
-                 capture=False):
+                 capture=False, parent_rebind=False):
         self.rng = rng
+        # an element declares prefixes ITSELF, one of its children re-declares such a prefix with
+        # another URI (unused there) and later siblings rely on the parent's binding
+        self.parent_rebind = parent_rebind
+        self.local_stack = []       # prefixes declared by the enclosing elements themselves (this mode)
+        self.hcount = 0
         self.capture = capture      # re-declare an Envelope-level prefix on a leaf (unused there)
         self.outer = {}             # prefix -> uri declared on the Envelope
         self.shadow = shadow
@@ -337,8 +341,11 @@ class Writer(object):
                 own[""] = uri
                 self.features.add("default-namespace")
                 return ""
-        if avail and rng.random() > (0.15 if not (self.plain or self.capture) else 0.0):
+        if avail and rng.random() > (0.15 if not (self.plain or self.capture or self.parent_rebind) else 0.0):
             p = rng.choice(avail)
+            mine = [q for q in avail if any(q in d for d in self.local_stack)]
+            if mine and rng.random() < 0.85:
+                p = rng.choice(mine)
             self.used_here.add(p)
             return p
         if avail and len(avail) >= 1:
@@ -378,6 +385,12 @@ class Writer(object):
         i = 0
         while i < len(s):
             r = rng.random()
+            if s[i] in " \t\n" and 0 < i < len(s) - 1 and not self.plain and rng.random() < 0.3:
+                # a whitespace-only CDATA section or character reference in mid-text
+                out.append(rng.choice(["<![CDATA[%s]]>" % s[i], "&#%d;" % ord(s[i]), "&#x%X;" % ord(s[i])]))
+                self.features.add("whitespace-only-chunk-in-mid-text")
+                i += 1
+                continue
             if r < 0.12 and not self.plain:
                 # a CDATA section over a random run (never holding "]" or CR)
                 j = i + rng.randrange(1, 6)
@@ -422,6 +435,7 @@ class Writer(object):
         own = dict(extra_decls or {})
         merged = scope + [own]
         self.used_here = set()
+        parent_local = self.local_stack[-1] if self.local_stack else {}
         # the element's own name
         if x.ns is None:
             if self.lookup(merged, "") not in (None, ""):
@@ -454,6 +468,21 @@ class Writer(object):
             ats.append((name, val))
         if rng.random() < 0.5:
             rng.shuffle(ats)
+        my_local = {}
+        if self.parent_rebind and x.complex and len(x.kids) >= 2 and rng.random() < 0.7:
+            for uri in [F.XSI] + sorted(set(k.ns for k in x.kids if k.ns) | set(
+                    av[1] for k in x.kids for (_, _, av) in k.attrs if isinstance(av, tuple) and av[1] != F.XSD)):
+                if rng.random() < 0.8:
+                    self.hcount += 1
+                    my_local["h%d" % self.hcount] = uri
+            own.update(my_local)
+            self.features.add("element-declares-prefixes-itself")
+        if parent_local and rng.random() < 0.5:
+            cands = [p for p in sorted(parent_local) if p not in own and p not in self.used_here
+                     and self.lookup(merged, p) == parent_local[p]]
+            if cands:
+                own[rng.choice(cands)] = "urn:unrelated:%d" % rng.randrange(3)
+                self.features.add("parent-prefix-redeclared-by-child")
         if self.capture and not x.complex and not x.nil and rng.random() < 0.35:
             cands = [p for p in self.outer if p not in own and p not in self.used_here and self.lookup(merged, p) == self.outer[p]]
             if cands:
@@ -476,8 +505,10 @@ class Writer(object):
                     return head + "/>"
                 return head + "></" + qname + self.tagspace() + ">"
             body = self.gap(depth + 1)
+            self.local_stack.append(my_local)
             for k in x.kids:
                 body += self.element(k, inner_scope, depth + 1) + self.gap(depth + 1)
+            self.local_stack.pop()
             return head + ">" + body + "</" + qname + self.tagspace() + ">"
         if x.text == "":
             if rng.random() < 0.5:
@@ -755,6 +786,28 @@ def directed_documents(I):
          obj("None", [("m", lst(["PNone", obj(tT, [("l", lst([leaf(1, "2")]))])]))])),
         ("empty-complex", w('<r/>'),
          obj("None", [("r", obj(tT, []))])),
+        ("empty-leaf", w('<m xsi:type="t:D"><x xmlns="urn:fam:ns1"></x></m>'),
+         obj("None", [("m", lst([obj(tD, [("x", leaf(0, ""))])]))])),
+        # a repeating member of a named complex type occurring exactly once: a one-element list
+        ("single-occurrence-list", w('<m><l>2</l></m>'),
+         obj("None", [("m", lst([obj(tT, [("l", lst([leaf(1, "2")]))])]))])),
+        # whitespace-only character chunks inside a string value
+        ("linefeed-in-value", w('<m xsi:type="t:D"><x xmlns="urn:fam:ns1">first line\nsecond line</x></m>'),
+         obj("None", [("m", lst([obj(tD, [("x", leaf(0, "first line\nsecond line"))])]))])),
+        ("blank-between-references", w('<m xsi:type="t:D"><x xmlns="urn:fam:ns1">a&amp; &amp;b</x></m>'),
+         obj("None", [("m", lst([obj(tD, [("x", leaf(0, "a& &b"))])]))])),
+        ("blank-cdata-in-mid-text", w('<m xsi:type="t:D"><x xmlns="urn:fam:ns1">left<![CDATA[ ]]>right</x></m>'),
+         obj("None", [("m", lst([obj(tD, [("x", leaf(0, "left right"))])]))])),
+        # the PARENT itself declares the prefix, a child re-declares it, later siblings rely on the
+        # parent's binding (in an xsi:type value / in the xsi: attribute names): decodes correctly
+        ("parent-prefix-redeclared-qname",
+         w('<r xmlns:p="urn:unrelated"><l>1</l></r><m xsi:type="p:D"><x xmlns="urn:fam:ns1">a</x></m>',
+           ' xmlns:p="urn:fam:ns1"'),
+         obj("None", [("r", obj(tT, [("l", lst([leaf(1, "1")]))])), ("m", lst([obj(tD, [("x", leaf(0, "a"))])]))])),
+        ("parent-prefix-redeclared-xsi",
+         w('<r xmlns:i="urn:unrelated"><l>1</l></r><m i:nil="true"/><m i:type="t:D"/>',
+           ' xmlns:i="%s"' % F.XSI),
+         obj("None", [("r", obj(tT, [("l", lst([leaf(1, "1")]))])), ("m", lst(["PNone", obj(tD, [])]))])),
     ]
 
 
@@ -771,6 +824,7 @@ PROFILES = [
     ("unprefixed-qname", 2, dict(unprefixed_qname=True)),
     ("pretty-empty", 1, dict(ws_in_childless=True)),
     ("outer-prefix-redeclared", 2, dict(capture=True)),
+    ("parent-prefix-redeclared", 3, dict(parent_rebind=True)),
 ]
 
 
@@ -953,41 +1007,32 @@ def judge(ck, cases, meta, res, proof_ok):
                     {"code_strings": T.code_strings(), "skipped": T.skipped_uris(), "reserved": T.reserved_words(),
                      "self_checks_failing": broken})
     spec_bad = set(res["reply_spec_ok"])
-    debatable_seen = {}
+    model_bad = set(res["reply_agrees"])
     for i in sorted(spec_bad):
         m = meta[i]
         fl = [f for f in FLAGS if i in flagged[f]]
         payload = {"wsdl": m["wsdl"].decode("utf-8"), "operation": m["op"], "reply": m["reply"].decode("utf-8"),
                    "returned": m["result"], "expected": m["expected"], "classes": fl, "case": cases[i][:20000]}
-        known = [f for f in fl if f in FLAG_KEYS]
-        deb = [f for f in fl if f in DEBATABLE_KEYS]
-        if known:
-            f = known[0]
-            ck.failing_input(FLAG_KEYS[f], "reply decoded to %s where the document encodes %s"
-                             % (m["result"][:200], m["expected"][:200]), payload)
-            ck.count("known-" + FLAG_KEYS[f])
-        elif deb:
-            f = deb[0]
-            key = DEBATABLE_KEYS[f]
-            ck.count("debatable-" + key)
-            if key in ck.known:
-                ck.failing_input(key, "reply decoded to %s where the document encodes %s"
-                                 % (m["result"][:200], m["expected"][:200]), payload)
-            else:
-                debatable_seen.setdefault(key, payload["reply"][:1500])
+        what = ("%s(__inject reply) returned %s but the document encodes %s"
+                % (m["op"], m["result"][:300], m["expected"][:300]))
+        if i not in model_bad:
+            # the implementation does what the model (with the quirks of the unchanged code) does:
+            # the departure from the reference is one of the modelled classes
+            known = [f for f in (3, 4, 1, 2, 5, 6) if f in fl]
+            key = FLAG_KEYS[known[0]] if known else "C02:reply-value"
+        elif 8 in fl:
+            key = REGRESSION_KEYS[8]
         else:
-            ck.failing_input("C02:reply-value",
-                             "%s(__inject reply) returned %s but the document encodes %s"
-                             % (m["op"], m["result"][:300], m["expected"][:300]), payload)
-    ck.extra["debatable_classes_observed_not_reported"] = debatable_seen
-    unexplained = set(i for i in spec_bad
-                      if not any(i in flagged[f] for f in FLAGS))
-    dis = [i for i in res["reply_agrees"] if i not in unexplained]
+            key = "C02:reply-value"
+        ck.failing_input(key, what, payload)
+        ck.count("contradiction-" + key)
+    # model != implementation although the reply still decodes to the reference value
+    dis = [i for i in sorted(model_bad) if i not in spec_bad]
     import os
     dump = os.environ.get("C02_DUMP")        # development aid: write the disagreeing cases as .v files
     if dump:
         os.makedirs(dump, exist_ok=True)
-        for n, i in enumerate(res["reply_agrees"][:10]):
+        for n, i in enumerate((sorted(model_bad) + sorted(spec_bad))[:12]):
             with open(os.path.join(dump, "dis%d.v" % n), "w") as f:
                 f.write(PRE + "\nImport ListNotations.\nDefinition c : case := %s.\n"
                         "Eval vm_compute in (model_reply c).\nEval vm_compute in (c_impl c).\n"
